@@ -368,7 +368,7 @@ theorem mapTxPanics_canon (H : Bytes → Bytes) (tx : TxData) (h : AllTyped tx) 
 
 theorem decBlockTx_enc (H : Bytes → Bytes) (hH : Hash32 H) (tx : TxData) (h : WFTx H tx) (ht : AllTyped tx) (r : Bytes) :
     (decBlockTx H (encTx H tx ++ r)).out = .ok (canonTx H tx) r := by
-  unfold decBlockTx
+  unfold decBlockTx decBlockTxWith
   rw [bind_ok (decTx_enc H hH tx h r)]
   have : (mapTxD (canonTx H tx) r).out = .ok () r := by
     unfold mapTxD
@@ -384,19 +384,19 @@ structure WFBlock (H : Bytes → Bytes) (b : Block) : Prop where
 
 theorem decBlock_enc3 (H : Bytes → Bytes) (hH : Hash32 H) (b : Block) (wf : WFBlock H b) (r : Bytes) :
     (decBlock H (encBlock H 3 b ++ r)).out = .ok (3, ⟨b.header, b.txs.map (canonTx H)⟩) r := by
-  unfold decBlock encBlock
+  unfold decBlock decBlockWith encBlock
   rw [if_neg (by decide)]
   simp only [List.append_assoc]
   rw [bind_ok (decHeader_enc 3 (Or.inr rfl) b.header wf.header _)]
   simp only
   rw [if_neg (by decide), bind_ok (readVarint31_put _ wf.nTx _)]
-  rw [bind_ok (readN_enc' _ (decBlockTx H) (encTx H) (canonTx H) b.txs r
+  rw [bind_ok (readN_enc' _ (decBlockTxWith mapTxD H) (encTx H) (canonTx H) b.txs r
     (fun t ht r => decBlockTx_enc H hH t (wf.txs t ht).1 (wf.txs t ht).2 r))]
   rfl
 
 theorem decBlock_enc1 (H : Bytes → Bytes) (b : Block) (wf : WFHeader b.header) (r : Bytes) :
     (decBlock H (encBlock H 1 b ++ r)).out = .ok (1, ⟨b.header, []⟩) r := by
-  unfold decBlock encBlock
+  unfold decBlock decBlockWith encBlock
   rw [if_pos rfl]
   simp only [List.append_nil]
   rw [bind_ok (decHeader_enc 1 (Or.inl rfl) b.header wf _)]
@@ -407,13 +407,13 @@ theorem decBlock_enc1 (H : Bytes → Bytes) (b : Block) (wf : WFHeader b.header)
 theorem decBlock_enc2 (H : Bytes → Bytes) (hH : Hash32 H) (b : Block) (hn : b.txs.length ≤ max31)
     (wf : ∀ t ∈ b.txs, WFTx H t ∧ AllTyped t) (r : Bytes) :
     (decBlock H (encBlock H 2 b ++ r)).out = .ok (2, ⟨BlockHeader.zero, b.txs.map (canonTx H)⟩) r := by
-  unfold decBlock encBlock
+  unfold decBlock decBlockWith encBlock
   rw [if_neg (by decide)]
   simp only [List.append_assoc]
   rw [bind_ok (decHeader_enc2 b.header _)]
   simp only
   rw [if_neg (by decide), bind_ok (readVarint31_put _ hn _)]
-  rw [bind_ok (readN_enc' _ (decBlockTx H) (encTx H) (canonTx H) b.txs r
+  rw [bind_ok (readN_enc' _ (decBlockTxWith mapTxD H) (encTx H) (canonTx H) b.txs r
     (fun t ht r => decBlockTx_enc H hH t (wf t ht).1 (wf t ht).2 r))]
   rfl
 
